@@ -209,21 +209,36 @@ def snap (c : Cfg) (s : State) (l : Label) : Snap :=
 /-- the thread number that stands for "wait until the oldest outstanding failure has expired" -/
 def waitMark : Nat := 1000
 
-/-- `q`: the backends of the outstanding failures, oldest first (only used with `delayed`) -/
-def replay (c : Cfg) (ex : Expiry) : State → List Nat → List (Nat × Nat) → List Snap
-  | s, _, [] => [snap c s .final]
-  | s, q, (t, x) :: es =>
+/-- thread numbers from here on stand for "the client of request t - cancelMark goes away" -/
+def cancelMark : Nat := 2000
+
+/-- A request whose client has gone away (its context is cancelled) while it was between attempts
+or had not started yet: once it has been counted in on a backend, the transport returns
+`context.Canceled` at once — the attempt ends with outcome `cancel` in the same action. -/
+def afterCancel (c : Cfg) (t : Nat) (r : State × Label) : State × Label :=
+  match r.2 with
+  | .fwd h => (stepD c r.1 (.finish t .cancel), .fin h .cancel)
+  | _ => r
+
+/-- `q`: the backends of the outstanding failures, oldest first (only used with `delayed`);
+`cs`: the requests whose client has gone away -/
+def replay (c : Cfg) (ex : Expiry) : State → List Nat → List Nat → List (Nat × Nat) → List Snap
+  | s, _, _, [] => [snap c s .final]
+  | s, q, cs, (t, x) :: es =>
     if t = waitMark then
       match q with
       | h :: q' =>
         let s' := stepD c s (.timer h)
-        snap c s' (.exp h) :: replay c ex s' q' es
-      | [] => snap c s .noop :: replay c ex s [] es
+        snap c s' (.exp h) :: replay c ex s' q' cs es
+      | [] => snap c s .noop :: replay c ex s [] cs es
+    else if t ≥ cancelMark then
+      snap c s .noop :: replay c ex s q ((t - cancelMark) :: cs) es
     else
-      let r := advance c ex s t x
+      let r0 := advance c ex s t x
+      let r := if cs.contains t then afterCancel c t r0 else r0
       let q' := match r.2 with
         | .fin h .err => if ex == .delayed then q ++ [h] else q
         | _ => q
-      snap c r.1 r.2 :: replay c ex r.1 q' es
+      snap c r.1 r.2 :: replay c ex r.1 q' cs es
 
 end Casket.Accounting
